@@ -8,6 +8,9 @@ import (
 	"sync"
 	"time"
 
+	header "github.com/celestiaorg/go-header"
+	"github.com/ipfs/go-datastore"
+
 	"verifsim/core"
 	"verifsim/simdisk"
 )
@@ -30,6 +33,8 @@ type hscript struct {
 	kind string // ok | err | panic | slow
 	at   int    // fail at the at-th call (1-based) of this handler within a DeleteRange
 	n    int
+	// errKind selects what an "err" script fails with (0 = a plain error)
+	errKind int
 }
 
 func runC14(s *core.Sim, tier string) RunInfo {
@@ -103,6 +108,20 @@ func runC14(s *core.Sim, tier string) RunInfo {
 				case sc.kind == "err" && sc.n == sc.at:
 					c.result = "err"
 					s.Fault("handler-error")
+					// whatever a handler may fail with: its own not-found (from a getter, from a
+					// datastore), its context, anything
+					switch sc.errKind {
+					case 1:
+						s.Fault("handler-error-header-notfound")
+						return fmt.Errorf("handler: looking up my record for %d: %w", height, header.ErrNotFound)
+					case 2:
+						s.Fault("handler-error-datastore-notfound")
+						return fmt.Errorf("handler: looking up my record for %d: %w", height, datastore.ErrNotFound)
+					case 3:
+						return fmt.Errorf("handler: %w", context.Canceled)
+					case 4:
+						return fmt.Errorf("handler: %w", context.DeadlineExceeded)
+					}
 					return errors.New("handler says no")
 				case sc.kind == "panic" && sc.n == sc.at:
 					c.result = "panic"
@@ -125,8 +144,24 @@ func runC14(s *core.Sim, tier string) RunInfo {
 	if w.opens > 1 {
 		register() // buildStore restarted: new Store instance
 	}
-	rounds := 1 + s.Tape.Draw("rounds", 3)
-	for r := 0; r < rounds && !s.Failed() && !m.Empty(); r++ {
+	rounds := 1 + s.Tape.Draw("rounds", 4)
+	for r := 0; r < rounds && !s.Failed(); r++ {
+		if m.Empty() {
+			// the whole chain was deleted (the store wiped itself): the same Store object, with
+			// the handlers registered on it, gets a new chain and goes on deleting
+			from, to, _ := genAppend(s, w, m)
+			hist = append(hist, fmt.Sprintf("append %d..%d (after the store was emptied)", from, to))
+			if err := w.Append(w.Ch.Range(from, to)...); err != nil {
+				s.Violate("append-error", nil, "Append: %v", err)
+				break
+			}
+			m.Append(from, to)
+			if err := w.Sync(); err != nil {
+				s.Violate("sync-error", nil, "Sync: %v", err)
+				break
+			}
+			s.Probe("deleting-again-after-wipe")
+		}
 		from, to := genDelete(s, m, true)
 		if !m.DeleteOK(from, to) {
 			continue
@@ -134,7 +169,7 @@ func runC14(s *core.Sim, tier string) RunInfo {
 		n := int(to - from)
 		for i := range scripts {
 			k := core.Pick(s.Tape, "script", []string{"ok", "ok", "err", "panic", "slow"})
-			scripts[i] = &hscript{kind: k, at: 1 + s.Tape.Draw("fail-at", n)}
+			scripts[i] = &hscript{kind: k, at: 1 + s.Tape.Draw("fail-at", n), errKind: s.Tape.Biased("err-kind", 5, 2)}
 		}
 		desc := make([]string, nh)
 		for i, sc := range scripts {
